@@ -37,15 +37,15 @@ ExpandW(runs) == Flatten([i \in 1..Len(runs) |-> ValsOf(runs[i])])
 AltWidths == IF Thorough THEN 1..32 ELSE {1, 2, 3, 7, 8, 9, 16, 17, 31, 32}
 
 \* ------------------------------------------------------------------ delta options
-AltOpts == {[bs |-> 128, m |-> 4, widen |-> 0, unused |-> 0],
-            [bs |-> 128, m |-> 4, widen |-> 0, unused |-> 255],
+AltOpts == {[bs |-> 128, m |-> 4, widen |-> 0, unused |-> 0]} \cup
+           (IF Thorough THEN {[bs |-> 128, m |-> 4, widen |-> 0, unused |-> 255]} ELSE {}) \cup {
             [bs |-> 128, m |-> 4, widen |-> 2, unused |-> 33],
             [bs |-> 128, m |-> 4, widen |-> 9, unused |-> 7]}
 OtherGeom == {[bs |-> 128, m |-> 2, widen |-> 0, unused |-> 1],
               [bs |-> 128, m |-> 1, widen |-> 0, unused |-> 64],
               [bs |-> 256, m |-> 8, widen |-> 0, unused |-> 0],
               [bs |-> 256, m |-> 4, widen |-> 1, unused |-> 9]}
-AltLens == IF Thorough THEN C!DeltaLens ELSE {0, 1, 2, 33, 129, 130, 257}
+AltLens == IF Thorough THEN C!DeltaLens ELSE {0, 1, 2, 33, 130, 257}
 
 \* ------------------------------------------------------------------ dictionary index streams
 \* encode an index sequence as runs: style 0 = literal groups only (padded), 1 = RLE for equal
